@@ -7,6 +7,24 @@ namespace lsim
 Counter f_preempt("fault.sched.preempt");
 Counter f_stall("fault.sched.stall");
 Counter f_clockjump("fault.clock.jump");
+Counter f_fork("fault.process.fork");
+Counter p_fork_handlers("probe.fork_handlers_run");
+
+// Fork handlers the code under test registers (pthread_atfork).  The simulator does not really
+// fork: a "fork" operation runs, in the calling thread and at a scheduler-chosen instant, what
+// fork() runs in the parent - the prepare handlers in reverse order of registration, then the
+// parent handlers in order - while the other threads keep logging.
+struct ForkHandlers
+{
+    void (*prepare)();
+    void (*parent)();
+    void (*child)();
+};
+std::vector<ForkHandlers>& fork_handlers()
+{
+    static std::vector<ForkHandlers> v;
+    return v;
+}
 Counter p_contended("probe.lock_contended");
 Counter f_lock_timeout("fault.lock.timeout");
 Counter f_eintr("fault.sem.eintr");
@@ -39,6 +57,7 @@ enum Kind
     K_THRESH, // thread n level
     K_JUMP,   // thread delta_ms (signed via offset)
     K_MOVE,   // thread slot: the named stream is move-constructed into a new object, the old one destroyed
+    K_FORK,   // thread: the process forks here (simulated: the registered fork handlers run in this thread)
     K_N
 };
 const std::vector<OpSchema>& ls_schema()
@@ -48,6 +67,7 @@ const std::vector<OpSchema>& ls_schema()
         { "put", { "thread", "slot", "n" } },       { "close", { "thread", "slot" } },
         { "set_threshold", { "thread", "n", "level" } }, { "clock_jump", { "thread", "delta" } },
         { "move_named", { "thread", "slot" } },
+        { "fork", { "thread" } },
     };
     return s;
 }
@@ -184,6 +204,7 @@ public:
         p.knobs.emplace_back("tie", catalogue()[static_cast<size_t>(logger)].sink == SK_SEQ_MT ? 0 : static_cast<int>(rng.below(2)));
         // initial thresholds
         bool flips = rng.chance(2, 3);
+        bool forks = rng.chance(1, 4);
         for (int n = 0; n < 3; n++)
             p.knobs.emplace_back(n == 0 ? "th0" : n == 1 ? "th1" : "th2", static_cast<int64_t>(rng.below(6)));
         // item mix (swarm)
@@ -332,6 +353,13 @@ public:
                     th.a[1] = static_cast<int64_t>(rng.below(3));
                     th.a[2] = static_cast<int64_t>(rng.below(6));
                     prog[static_cast<size_t>(t)].push_back(th);
+                }
+                if (forks && rng.chance(1, 6))
+                {
+                    Op fk;
+                    fk.kind = K_FORK;
+                    fk.a[0] = t;
+                    prog[static_cast<size_t>(t)].push_back(fk);
                 }
                 if (rng.chance(1, 10))
                 {
@@ -734,6 +762,26 @@ public:
                             }
                         if (any)
                             f_flip_inflight++;
+                        break;
+                    }
+                    case K_FORK:
+                    {
+                        f_fork++;
+                        sch.yield(YK_STEP);
+                        auto& fh = fork_handlers();
+                        for (size_t k = fh.size(); k-- > 0;)
+                            if (fh[k].prepare)
+                            {
+                                p_fork_handlers++;
+                                fh[k].prepare();
+                            }
+                        sch.yield(YK_STEP);
+                        for (auto& e : fh)
+                            if (e.parent)
+                            {
+                                p_fork_handlers++;
+                                e.parent();
+                            }
                         break;
                     }
                     case K_JUMP:
@@ -1229,6 +1277,14 @@ F real_sym(const char* name)
 } // namespace
 extern "C"
 {
+    // defined here, so the archive member of libc_nonshared.a is not linked: registrations made by
+    // the code under test land in the simulator's table
+    int pthread_atfork(void (*prepare)(void), void (*parent)(void), void (*child)(void)) noexcept
+    {
+        NoFault nf;
+        fork_handlers().push_back(ForkHandlers{ prepare, parent, child });
+        return 0;
+    }
     int pthread_cond_wait(pthread_cond_t* c, pthread_mutex_t* m)
     {
         static auto real = real_sym<int (*)(pthread_cond_t*, pthread_mutex_t*)>("pthread_cond_wait");
